@@ -49,6 +49,7 @@ type senv struct {
 	callerSide bool
 	inQuant    bool
 	upto       int  // >= 0: names are resolved at instruction index upto of block hdr (assert clauses); -1: at a loop header
+	abstractAs types.Type // with abstract: interface-typed abstraction arguments denote implementation objects of this pointer type
 	abstract   bool // refinement mode: ghosts that have an abstraction are replaced by their definition
 }
 
@@ -1163,7 +1164,7 @@ func (c *evalCtx) call(x *ast.CallExpr) *sv {
 		}
 		return v
 	}
-	if ab, ok := c.t.eng.specs.Abstractions[name]; ok && c.env.abstract {
+	if ab, ok := c.t.eng.specs.Abstractions[name]; ok && c.env.abstract && c.abstractionApplies(args) {
 		if len(args) != len(ab.Params) {
 			c.fail("abstraction %s expects %d argument(s)", name, len(ab.Params))
 		}
@@ -1174,8 +1175,13 @@ func (c *evalCtx) call(x *ast.CallExpr) *sv {
 				ne.pkg = pp.Pkg
 			}
 		}
+		ne.abstractAs = c.env.abstractAs
 		for i, a := range args {
-			ne.vars[ab.Params[i]] = c.eval(a)
+			v := c.eval(a)
+			if v.sort == "iface" && c.env.abstractAs != nil {
+				v = &sv{sort: "loc", ty: c.env.abstractAs, terms: []string{"(iloc " + c.rv1(v) + ")"}}
+			}
+			ne.vars[ab.Params[i]] = v
 		}
 		nc := *c
 		nc.env = ne
@@ -1215,7 +1221,7 @@ func (c *evalCtx) call(x *ast.CallExpr) *sv {
 		if c.t.opaquePreds[name] && c.t.dryRun == 0 {
 			return c.opaquePred(name, p, args)
 		}
-		ne := &senv{t: c.t, vars: map[string]*sv{}, lets: map[string]ast.Expr{}, depth: c.env.depth + 1, callerSide: c.env.callerSide, callerPtrs: c.env.callerPtrs, callerEpoch: c.env.callerEpoch, inQuant: c.env.inQuant, abstract: c.env.abstract}
+		ne := &senv{t: c.t, vars: map[string]*sv{}, lets: map[string]ast.Expr{}, depth: c.env.depth + 1, callerSide: c.env.callerSide, callerPtrs: c.env.callerPtrs, callerEpoch: c.env.callerEpoch, inQuant: c.env.inQuant, abstract: c.env.abstract, abstractAs: c.env.abstractAs}
 		ne.pkg = c.env.pkg
 		if p.Pkg != "" {
 			if pp := c.t.eng.pkgs[p.Pkg]; pp != nil {
@@ -1234,6 +1240,25 @@ func (c *evalCtx) call(x *ast.CallExpr) *sv {
 	}
 	c.fail("unknown spec function %q", name)
 	return nil
+}
+
+// abstractionApplies: an abstraction is the definition of a ghost over the fields of the implementing type; it is used
+// only when the object argument is (a pointer to) an implementation object - for a value of the interface type itself
+// (e.g. another interface-typed parameter of the function under refinement) the ghost stays abstract.
+func (c *evalCtx) abstractionApplies(args []ast.Expr) (ok bool) {
+	if len(args) == 0 {
+		return true
+	}
+	defer func() {
+		if r := recover(); r != nil {
+			ok = true
+		}
+	}()
+	v := c.eval(args[0])
+	if v.sort == "iface" && c.env.abstractAs == nil {
+		return false
+	}
+	return true
 }
 
 func (c *evalCtx) typeArg(a ast.Expr) int {
@@ -1657,7 +1682,25 @@ func (c *evalCtx) quantV(kind string, args []ast.Expr) *sv {
 		c.t.qsort[qv] = smtSort(sort)
 		binders = append(binders, fmt.Sprintf("(%s %s)", qv, smtSort(sort)))
 	}
+	var wf []string
+	nc.wf = &wf
 	body := nc.rv1(nc.eval(args[1]))
+	if len(wf) > 0 && c.mode != 0 {
+		// type facts of the memory cells the body reads (as in forall/exists over a range): available when the quantified
+		// statement is used, assumable when it has to be proved
+		w := "(and " + strings.Join(uniq(wf), " ") + ")"
+		if kind == "forallv" {
+			if c.mode > 0 {
+				body = fmt.Sprintf("(and %s %s)", w, body)
+			} else {
+				body = fmt.Sprintf("(=> %s %s)", w, body)
+			}
+		} else if c.mode > 0 {
+			body = fmt.Sprintf("(and %s %s)", w, body)
+		} else {
+			body = fmt.Sprintf("(=> %s %s)", w, body)
+		}
+	}
 	var pats []string
 	for _, a := range args[2:] {
 		v := nc.eval(a)
